@@ -204,6 +204,14 @@ class Table(Vector):
 		
 		self._length = len(initial[0]) if initial else 0
 		
+		# A table is rectangular: refuse columns of differing lengths
+		if initial:
+			lengths = [len(vec) for vec in initial]
+			if any(n != self._length for n in lengths):
+				raise SerifValueError(
+					f"All columns of a Table must have the same length, got lengths {lengths}"
+				)
+		
 		# Deep copy columns to enforce value semantics
 		# Tables receive snapshots of vectors, preventing aliasing
 		# Save original names BEFORE copying
